@@ -1,7 +1,7 @@
 from . import contract_items, COMMON_TB, COMMON_ASSUME
 META = dict(trusted_base=COMMON_TB + ["io.BytesIO.read(n) returns min(n, remaining) bytes and advances the position by that many (SymStream model)"],
-            assumptions=COMMON_ASSUME + ["round trip is proved for every single-element length 1..520 and for a fixed family of multi-element shapes (symbolic contents), not for scripts of arbitrary length"])
+            assumptions=COMMON_ASSUME + ["list-level round trip for scripts of any length = step contract of raw_serialize (generic command, any accumulated prefix) + step contract of Script.parse (any loop state) + lemmas.l_c19 (header inverse, exit by the induction schema); the induction rule over the number of commands is the meta-level step. Additionally checked end to end for every single-element length 1..520 and a family of multi-element shapes."])
 
 
 def items(tier):
-    return contract_items("C19", tier)
+    return contract_items("C19", tier) + [dict(kind="lemma", spec="lemmas.l_c19:fold"), dict(kind="lemma", spec="lemmas.l_c19:canary")]
